@@ -103,7 +103,7 @@ def o_frame(root, pre, op, res, extra):
     if not res or res[0] != 'ok' or pre.parent is None:
         return []
     kind = op['kind']
-    if kind in ('spacing', 'claim', 'unclaim', 'tok-raw-bad', 'rep-pop-insert'):
+    if kind in ('spacing', 'claim', 'unclaim', 'claim-inter', 'unclaim-inter', 'tok-raw-bad', 'rep-pop-insert'):
         return []  # not single slot edits (pop+insert is two)
     out = []
     post = list(root.token_store)
